@@ -5,7 +5,7 @@ from vcheck import fmt_q, fmt_vec, fmt_crs
 import gen
 
 SOLVERS = ["cg", "bicgstab", "richardson", "gmres", "fgmres", "lgmres", "bicgstabl", "idrs"]
-MODELLED = ["cg", "bicgstab", "richardson", "gmres", "fgmres", "lgmres"]
+MODELLED = ["cg", "bicgstab", "richardson", "gmres", "fgmres", "lgmres", "bicgstabl"]
 SIDED = ["bicgstab", "gmres", "lgmres", "bicgstabl"]
 SQRT_FREE = ["cg", "bicgstab", "richardson"]          # recurrences without square roots: rationals stay small
 ABSTOL_MIN = F(1, 2 ** 1022)                           # numeric_limits<double>::min(), the default abstol
